@@ -63,6 +63,7 @@ pub fn expose(m: &Scope, global: &mut FunctionMap) {
         let col = s.get::<Color>(name!(color))?;
         let col = col.to_hsla();
         let lum = col.lum() - s.get_map(name!(amount), check_amount)?;
+        let lum = lum.clamp(0., 1.);
         Ok(Hsla::new(col.hue(), col.sat(), lum, col.alpha(), false).into())
     });
     def!(f, desaturate(color, amount), |s| {
@@ -109,6 +110,7 @@ pub fn expose(m: &Scope, global: &mut FunctionMap) {
         let col = s.get::<Color>(name!(color))?;
         let col = col.to_hsla();
         let lum = col.lum() + s.get_map(name!(amount), check_amount)?;
+        let lum = lum.clamp(0., 1.);
         Ok(Hsla::new(col.hue(), col.sat(), lum, col.alpha(), false).into())
     });
     for (gname, lname) in &[
